@@ -119,7 +119,7 @@ def audit(prop, spec):
 
 # ------------------------------------------------------------------------------- correspondence
 
-def run_op(prop, op, tier, seed, shards, extra=None, tag=""):
+def run_op(prop, op, tier, seed, shards, extra=None, tag="", timeout=None):
     """harness op | tee cases | driver > verdicts, sharded; returns list of (cases_path, verdicts_path)"""
     d = os.path.join(BUILD, "run", prop)
     os.makedirs(d, exist_ok=True)
@@ -127,11 +127,19 @@ def run_op(prop, op, tier, seed, shards, extra=None, tag=""):
     for i in range(shards):
         cases = os.path.join(d, f"{op}{tag}.{seed}.{i}.cases.jsonl")
         verd = os.path.join(d, f"{op}{tag}.{seed}.{i}.verdicts.jsonl")
-        cmd = f'"{HARNESS}" {op} --tier {tier} --seed {seed} --shard {i}/{shards} {extra or ""} 2>"{cases}.err" | tee "{cases}" | "{DRIVER}" > "{verd}"'
+        cmd = f'"{HARNESS}" {op} --tier {tier} --seed {seed} --shard {i}/{shards} {extra or ""} 2>"{cases}.err" | tee "{cases}" | "{DRIVER}" {prop} > "{verd}"'
         procs.append((subprocess.Popen(["bash", "-c", "set -o pipefail; " + cmd], env=GOENV), cases, verd))
     res = []
+    deadline = time.time() + timeout if timeout else None
     for p, cases, verd in procs:
-        rc = p.wait()
+        try:
+            rc = p.wait(timeout=max(1, deadline - time.time()) if deadline else None)
+        except subprocess.TimeoutExpired:
+            # a search run is cut short: what was explored so far still counts
+            subprocess.run(["pkill", "-P", str(p.pid)])
+            p.kill()
+            p.wait()
+            rc = 0
         res.append((cases, verd, rc))
     return res
 
@@ -187,11 +195,20 @@ class Tally:
         self.errors = []
         self.known_hits = {}
         self.harness_rc = []
+        self.search_evals = 0
 
-    def absorb(self, op, cases, verd, known):
+    def absorb(self, op, cases, verd, known, fails_only=False):
         n = 0
-        with open(verd) as f:
-            for line in f:
+        if fails_only:
+            # search mode: millions of lines; look only at those that report a spec failure
+            total = int(subprocess.run(["wc", "-l", verd], capture_output=True, text=True).stdout.split()[0] or 0)
+            self.evals += total
+            self.search_evals += total
+            lines = subprocess.run(["grep", "-F", '"spec":false', verd], capture_output=True, text=True).stdout.splitlines()[:5000]
+        else:
+            lines = open(verd)
+        if True:
+            for line in lines:
                 line = line.strip()
                 if not line:
                     continue
@@ -201,7 +218,8 @@ class Tally:
                     self.errors.append((op, "unparsable driver line: " + line[:200], cases, 0))
                     continue
                 n += 1
-                self.evals += 1
+                if not fails_only:
+                    self.evals += 1
                 if "error" in v:
                     self.errors.append((op, v["error"], cases, v.get("id", 0)))
                     continue
@@ -267,7 +285,7 @@ def do_replay(prop, spec, path):
             return 2
     rc, cases = run([HARNESS, "replay", "--replay", os.path.abspath(path)], env=GOENV, timeout=600)
     print("implementation:", cases)
-    rc, verd = run([DRIVER], stdin=cases + "\n", timeout=600)
+    rc, verd = run([DRIVER, prop], stdin=cases + "\n", timeout=600)
     print("model/spec verdict:", verd)
     try:
         v = json.loads(verd.strip().splitlines()[-1])
@@ -336,24 +354,28 @@ def main(argv):
     tally = Tally()
     shards = spec.get("shards", {}).get(tier, 4 if tier == "quick" else NCPU)
 
-    def correspond(tier_, seed_, tag=""):
+    def correspond(tier_, seed_, tag="", timeout=None):
         if not (have_driver and have_harness):
             return
         for op in spec["ops"]:
-            for cases, verd, rc in run_op(prop, op, tier_, seed_, shards, tag=tag):
+            for cases, verd, rc in run_op(prop, op, tier_, seed_, shards, tag=tag, timeout=timeout):
                 if rc != 0:
                     err = open(cases + ".err").read()[-2000:] if os.path.exists(cases + ".err") else ""
                     tally.errors.append((op, f"harness/driver pipeline exit {rc}: {err}", cases, 0))
-                tally.absorb(op, cases, verd, known)
+                tally.absorb(op, cases, verd, known, fails_only=bool(tag))
 
     correspond(tier, seed)
 
+    for u in unproved:
+        log("no longer checks:", u["what"], "|", u["output"][:600])
+    if tally.corr_fail or tally.errors:
+        log(f"{len(tally.corr_fail)} correspondence failures, {len(tally.errors)} errors; first error: {tally.errors[:1]}")
     searched = []
     if (unproved or tally.corr_fail or tally.errors) and not tally.spec_fail:
         # the proof or the correspondence broke but no spec failure was seen: search harder (§3.5)
         for s in (seed + 1000, seed + 2000, seed + 3000):
             log(f"searching for a failing input: thorough generators, seed {s}")
-            correspond("thorough", s, tag=".search")
+            correspond("thorough", s, tag=".search", timeout=30)
             searched.append(s)
             if tally.spec_fail:
                 break
